@@ -111,3 +111,18 @@ Definition known_coding_tokens : list bytes :=
 Definition charset_step_applies_listed (disable_autodecode : bool) (r : resp) : bool :=
   negb disable_autodecode &&
   negb (existsb (fun t => bytes_eqb (to_lower (header_get (r_ce r))) t) known_coding_tokens).
+
+(* ---------- body wrappers (download callback, dump) ---------- *)
+
+(* Transport.wrapResponseBody puts a byte-preserving wrapper (download progress, dump) on the MESSAGE
+   body: below the decoder where there is one (`b.body.body = wrap(b.body.body)` for transport.go's
+   gzipReader, SetUnderlyingBody for the compress readers), on res.Body otherwise.  The body the caller
+   holds keeps its shape.  NOT the code: `res.Body = wrap(b.body)` - the wrapper replaces the decoder. *)
+Definition wrap_body (b : body) : body := b.
+
+Definition wrap_replacing_decoder (b : body) : body :=
+  match b with Lazy _ w => Raw w | other => other end.
+
+Definition with_body (r : resp) (b : body) : resp :=
+  {| r_ce := r_ce r; r_clh := r_clh r; r_other := r_other r; r_cl := r_cl r; r_unc := r_unc r;
+     r_body := b; r_short := r_short r |}.
